@@ -30,9 +30,18 @@ var c16Readers = []string{"rows", "reader", "values", "merged", "converted", "ge
 
 const c16Rows = 48
 
+// c16DictFallback: when set, files are written with a tiny dictionary limit, so that the chunks of the
+// dictionary-encoded columns start with a dictionary page and continue with PLAIN pages.
+var c16DictFallback bool
+
 func c16File(compressed bool, ver int, seed uint64, first int) []byte {
 	buf := new(bytes.Buffer)
 	opts := []parquet.WriterOption{parquet.PageBufferSize(512), parquet.DataPageVersion(ver)}
+	if c16DictFallback {
+		// every byte array column starts dictionary-encoded; the 300-byte string of the value table overflows the limit
+		// somewhere in the middle of the chunk
+		opts = append(opts, parquet.DictionaryMaxBytes(150), parquet.DefaultEncodingFor(parquet.ByteArray, &parquet.RLEDictionary))
+	}
 	if compressed {
 		opts = append(opts, parquet.Compression(&parquet.Snappy))
 	}
@@ -41,7 +50,17 @@ func c16File(compressed bool, ver int, seed uint64, first int) []byte {
 	for i := range rows {
 		rows[i] = wRowOf(first+i, seed)
 	}
-	w.Write(rows)
+	if c16DictFallback {
+		// several pages per column, so that the dictionary limit is crossed after some dictionary-encoded pages
+		for i := 0; i < len(rows); i += 6 {
+			w.Write(rows[i:min(i+6, len(rows))])
+			for _, cw := range w.ColumnWriters() {
+				cw.Flush()
+			}
+		}
+	} else {
+		w.Write(rows)
+	}
 	w.Close()
 	return buf.Bytes()
 }
@@ -53,6 +72,7 @@ type c16Hold struct {
 	typed  *wRow
 	tsnap  wRow
 	window string
+	epoch  int // number of calls made on the reader when the value was received
 }
 
 func c16DeepCopy(r wRow) wRow {
@@ -149,11 +169,13 @@ func c16Main(args []string) error {
 		}
 		for _, kind := range readers {
 			r := newRng(seed ^ uint64(rid)*0x9E3779B1 ^ hashString(kind))
-			variant := r.intn(4)
+			variant := r.intn(16)
 			if sc.Var != nil {
 				variant = *sc.Var
 			}
-			data := c16File(variant%2 == 1, 1+variant/2, seed, 0)
+			c16DictFallback = variant&4 != 0
+			reuseBatch := variant&8 != 0 // the caller passes the same batch to every Read and keeps shallow copies
+			data := c16File(variant%2 == 1, 1+(variant/2)%2, seed, 0)
 			f, err := parquet.OpenFile(bytes.NewReader(data), int64(len(data)))
 			if err != nil {
 				return err
@@ -207,6 +229,8 @@ func c16Main(args []string) error {
 			}
 			holds := []*c16Hold{}
 			nextHold := 0
+			epoch := 0 // calls made on the reader under test: rows of the "call" window are valid until the next one
+			gbatch := make([]wRow, 32)
 			check := func() {
 				for _, h := range holds {
 					same := false
@@ -220,7 +244,7 @@ func c16Main(args []string) error {
 			}
 			addRowHold := func(row parquet.Row, window string, asWritten bool) {
 				nextHold++
-				h := &c16Hold{id: nextHold, row: row, snap: row.Clone(), window: window}
+				h := &c16Hold{id: nextHold, row: row, snap: row.Clone(), window: window, epoch: epoch}
 				holds = append(holds, h)
 				tr.emit("Hold", ev{"h": h.id, "window": window, "reader": kind, "asWritten": b2i(asWritten)})
 			}
@@ -235,6 +259,7 @@ func c16Main(args []string) error {
 			for _, op := range sc.Ops {
 				switch op {
 				case "read", "readmany":
+					epoch++
 					n := 1 + r.intn(2)
 					if op == "readmany" {
 						n = 9 + r.intn(20) // spans several pages
@@ -261,10 +286,18 @@ func c16Main(args []string) error {
 							}
 						case generic != nil:
 							buf := make([]wRow, n)
+							if reuseBatch {
+								buf = gbatch[:min(n, len(gbatch))]
+							}
 							m, _ := generic.Read(buf)
 							for i := 0; i < m; i++ {
 								nextHold++
-								h := &c16Hold{id: nextHold, typed: &buf[i], tsnap: c16DeepCopy(buf[i]), window: "forever"}
+								kept := &buf[i]
+								if reuseBatch {
+									c := buf[i] // what append(all, batch[:n]...) keeps: a copy of the struct, sharing what it points to
+									kept = &c
+								}
+								h := &c16Hold{id: nextHold, typed: kept, tsnap: c16DeepCopy(buf[i]), window: "forever"}
 								holds = append(holds, h)
 								tr.emit("Hold", ev{"h": h.id, "window": "forever", "reader": kind, "asWritten": b2i(wToken(buf[i], seed) >= 0)})
 							}
@@ -276,7 +309,7 @@ func c16Main(args []string) error {
 				case "clone":
 					// what the caller holds is cloned: the clones stay valid forever
 					for _, h := range holds {
-						if h.row != nil && h.window == "call" {
+						if h.row != nil && h.window == "call" && h.epoch == epoch { // still inside its window
 							c := h.row.Clone()
 							nextHold++
 							nh := &c16Hold{id: nextHold, row: c, snap: c.Clone(), window: "forever"}
@@ -295,6 +328,7 @@ func c16Main(args []string) error {
 						tr.emit("Hold", ev{"h": h.id, "window": "forever", "reader": "Read[T]", "asWritten": b2i(wToken(all[i], seed) >= 0)})
 					}
 				case "seek":
+					epoch++
 					tr.emit("Call", ev{"reader": kind})
 					guard(func() {
 						k := int64(r.intn(c16Rows))
